@@ -108,6 +108,7 @@ func Spec() *run.Spec {
 			"http_zip_files_read":                        200,
 			"http_websocket_clients":                     50,
 			"settle_reads":                               total * 3,
+			"conditional_read_graphs":                    total / 4,
 			"poison_updates":                             total / 20,
 			"failed_builds_observed":                     total / 20,
 			"slow_artifact_reads":                        total / 4,
@@ -637,6 +638,12 @@ func runHistory(c *run.Ctx, viaHTTP bool) run.Result {
 	res.Count("artifact_evaluations", atomic.LoadInt64(&lv.execs))
 	res.SetAdd("client_counts", fmt.Sprint(nClients))
 	res.SetAdd("graph_shapes", d.Shape)
+	for _, p := range d.Producers {
+		if !p.Stl && d.conditional(p.Node) {
+			res.Count("conditional_read_graphs", 1)
+			break
+		}
+	}
 	res.SetAdd("gomaxprocs", fmt.Sprint(runtime.GOMAXPROCS(0)))
 	if c.Race {
 		res.SetAdd("race_gomaxprocs", fmt.Sprint(runtime.GOMAXPROCS(0)))
@@ -776,6 +783,9 @@ func runHistory(c *run.Ctx, viaHTTP bool) run.Result {
 					fmt.Sprintf("artifact %s obtained by client %d (clock %d..%d) and written after the lock was released decodes to %q: the facets are not the elements of ONE value of parameter p%d (a value is n elements (id,j,n)) — the returned artifact is not a value usable after unlock", op.Arg, op.Client, op.Call, op.Ret, op.Out, d.Producers[op.plan.Prod].Param), wit())
 			}
 			continue
+		}
+		if d.conditional(d.Producers[op.plan.Prod].Node) {
+			continue // no fixed shape to unify with: porcupine decides
 		}
 		m := matchers[op.plan.Prod]
 		if m == nil {
